@@ -194,6 +194,7 @@ func (s *LinearState) Add(ctx *Context, id string, x Map) (string, error) {
 	s.slock(ctx, false)
 	defer s.sunlock(ctx, false)
 
+	unscheduled := false
 	if s.remHook != nil {
 		if previous, have := s.Facts[id]; have && isScheduledRule(previous.M) && !isScheduledRule(m) {
 			// A scheduled rule is being replaced by something that
@@ -205,11 +206,21 @@ func (s *LinearState) Add(ctx *Context, id string, x Map) (string, error) {
 			if err != nil {
 				return "", err
 			}
+			unscheduled = true
 		}
 	}
 
 	pair := &Pair{[]byte(id), bs}
 	if err = s.store.Add(ctx, s.Name, pair); err != nil {
+		if previous, have := s.Facts[id]; have && unscheduled && s.addHook != nil {
+			// The scheduled rule stays, so its schedule returns.
+			s.withPrivilege(ctx)
+			rerr := s.addHook(ctx, s, id, previous.M, ctx.GetLoc().loading)
+			s.withoutPrivilege(ctx)
+			if rerr != nil {
+				Log(ERROR, ctx, "LinearState.Add", "state", s.Name, "error", rerr, "when", "reschedule", "id", id)
+			}
+		}
 		return id, err
 	}
 	verifhook.Point("state.add.gap")
@@ -231,6 +242,12 @@ func (s *LinearState) Add(ctx *Context, id string, x Map) (string, error) {
 			}
 			if rerr != nil {
 				Log(ERROR, ctx, "LinearState.Add", "state", s.Name, "error", rerr, "when", "restore", "id", id)
+			}
+			if previous, have := s.Facts[id]; have && unscheduled {
+				// The scheduled rule stays, so its schedule returns.
+				if rerr = s.addHook(ctx, s, id, previous.M, ctx.GetLoc().loading); rerr != nil {
+					Log(ERROR, ctx, "LinearState.Add", "state", s.Name, "error", rerr, "when", "reschedule", "id", id)
+				}
 			}
 			return "", err
 		}
